@@ -58,7 +58,7 @@ def configs(tier, seed):
         # real relay classes in front of a scripted downstream: what they return meets what the queue understands
         for rk in ('pipe', 'pipe-whole', 'maildrop', 'smtp', 'lmtp', 'http'):
             if b in ('dict', 'disk') or not q:
-                cfgs.append(dict(backend=b, backoff='r0x2', n=2, messages=1, d=0, dd=3 if q else 4, relay_kind=rk, menu={}))
+                cfgs.append(dict(backend=b, backoff='r0x2', n=2, messages=1, d=0, dd=3 if (q or rk in ('smtp', 'lmtp', 'http')) else 4, relay_kind=rk, menu={}))
         if b in ('dict', 'disk'):
             # one HttpRelay object (pool of one) serving every attempt of the execution
             cfgs.append(dict(backend=b, backoff='r0x2', n=2, messages=1, d=0, dd=3, relay_kind='http', persistent_relay=True, menu={}, max_steps=2000))
